@@ -27,9 +27,11 @@ func tokCase(mode int, s string) *T {
 func cmdTok(args []string) {
 	fs := flag.NewFlagSet("tok", flag.ExitOnError)
 	seed := fs.Int64("seed", 1, "seed")
-	maxLen := fs.Int("len", 4, "exhaustive length over the alphabet")
-	nRand := fs.Int("rand", 20000, "random strings")
+	maxLen := fs.Int("len", 3, "exhaustive length over the alphabet")
+	nRand := fs.Int("n", 20000, "random strings")
 	out := fs.String("out", "tok.txt", "output")
+	_ = fs.String("profile", "", "unused")
+	_ = fs.String("obs", "", "unused")
 	fs.Parse(args)
 	f, err := os.Create(*out)
 	if err != nil {
